@@ -102,6 +102,39 @@ def run_keys(case, agg):
     agg.ok(key, "ok:pair", sample={k: case[k] for k in ("type", "enc", "priv", "pub")} if case["rep"] == 0 and case["enc"] == "der" else None)
 
 
+def rekey_cases(tier):
+    return [{"first": a, "second": b, "enc": e} for a, b in (("secp521r1", "ed25519"), ("secp384r1", "secp256r1"), ("ed448", "ed25519"), ("ed25519", "secp521r1"))
+            for e in ("pem", "der")]
+
+
+def run_rekey(case, agg):
+    """the same output prefix used twice: the files of the second run must be exactly the second key pair."""
+    from suit_generator import cmd_keys
+    with fresh_dir("c15r") as d:
+        prefix = os.path.join(d, "k")
+        try:
+            for t in (case["first"], case["second"]):
+                cmd_keys.main(output_file=prefix, type=t, encoding=case["enc"], private_format="pkcs8", public_format="default", encryption="none")
+            pb, ub = open(f"{prefix}_priv.{case['enc']}", "rb").read(), open(f"{prefix}_pub.{case['enc']}", "rb").read()
+            if case["enc"] == "pem":
+                priv, pub = serialization.load_pem_private_key(pb, None), serialization.load_pem_public_key(ub)
+                clean = pb.count(b"-----BEGIN") == 1 and pb.rstrip().endswith(b"-----") and ub.count(b"-----BEGIN") == 1 and ub.rstrip().endswith(b"-----")
+            else:
+                priv, pub = serialization.load_der_private_key(pb, None), serialization.load_der_public_key(ub)
+                clean = (priv.private_bytes(serialization.Encoding.DER, serialization.PrivateFormat.PKCS8, serialization.NoEncryption()) == pb
+                         and pub.public_bytes(serialization.Encoding.DER, serialization.PublicFormat.SubjectPublicKeyInfo) == ub)
+        except Exception as e:
+            agg.viol("C15:keys/rewrite-unloadable", f"{case}: after the second run the files do not load: {type(e).__name__}: {str(e)[:200]}")
+            return
+    cls, bits = TYPE_CLASS[case["second"]]
+    if not isinstance(priv, cls) or (bits and priv.key_size != bits):
+        agg.viol("C15:keys/rewrite-wrong-type", f"{case}: files hold a {type(priv).__name__}")
+    elif not clean:
+        agg.viol("C15:keys/rewrite-trailing-data", f"{case}: the files of the second run carry left-over bytes of the first")
+    else:
+        agg.ok(h8("c15r", case), "ok:rewrite", sample=case if case["enc"] == "der" and case["first"] == "secp521r1" else None)
+
+
 # -- convert -----------------------------------------------------------------------------------------
 
 DEFAULTS = dict(array_type="uint8_t", array_name="key_buf", length_type="size_t", length_name="key_len", columns_count=8, header_file="",
@@ -380,6 +413,7 @@ def run_cli(case, agg):
 def plan(tier):
     return [
         CaseStage("keys", lambda: keys_cases(tier), run_keys, rule="type x encoding x private format x public format x 3"),
+        CaseStage("keys-same-prefix-twice", lambda: rekey_cases(tier), run_rekey, rule="two runs with one prefix (4 type pairs x 2 encodings)"),
         CaseStage("convert-nist-scalars", lambda: scalar_cases(tier), run_scalars, chunk=1, rule="d = 1..N per curve + leading-zero table"),
         CaseStage("convert-ed", lambda: ed_cases(tier), run_ed, chunk=1, rule="Ed25519/Ed448 from seeds 0..255"),
         CaseStage("cli", lambda: cli_cases(tier), run_cli, rule="real CLI: keys with default / explicit options; convert with every option"),
